@@ -1527,7 +1527,7 @@ const TL_KINDS: [Kind; 6] = [Kind::TlOrder, Kind::TlFold, Kind::TlKeyedOrder, Ki
 /// to `cap`): hook 0 always has pending input and no decision; later hooks may be empty, may have
 /// released a snapshot in an earlier tick (`auto 1` + `rel`: the hook has a last released value, so
 /// "unchanged" is one of its decisions) and may already carry a manual decision (`auto 0` without `rel`)
-fn tick_setup(g: &mut Gen, nh: usize, cap: usize) -> Vec<Op> {
+fn tick_setup(g: &mut Gen, nh: usize, cap: usize, manual_eighths: u64) -> Vec<Op> {
     let mut ops = vec![];
     let cap = cap.max(1);
     let kcap = cap.min(2);
@@ -1587,7 +1587,7 @@ fn tick_setup(g: &mut Gen, nh: usize, cap: usize) -> Vec<Op> {
             ops.push(Op::New { kind, q, q2, m, m2 });
         }
         // a manual decision taken before run_hooks (an unprimed snapshot hook would stop being ready)
-        if i > 0 && g.rng.chance(1, 8) && (!snapshot || primed) {
+        if i > 0 && g.rng.chance(manual_eighths, 8) && (!snapshot || primed) {
             ops.push(Op::Auto { i, force: false, tape: g.tape() });
         }
     }
@@ -1639,7 +1639,8 @@ fn gen_case_c37_tick(idx: u64, tick_no: u64, g: &mut Gen, rec: &mut Recorder) {
     } else {
         let mut cap = if nh == 2 { 3 } else { 2 };
         loop {
-            let ops = tick_setup(g, nh, cap);
+            // every sixth tick: several hooks already carry a manual decision (first pass accumulation)
+            let ops = tick_setup(g, nh, cap, if tick_no % 6 == 5 { 4 } else { 1 });
             if tick_space_size(&ops) <= 400 {
                 break ops;
             }
